@@ -310,14 +310,14 @@ class LRUCache(_CacheBase):
         if self._allow_cloudpickle and self.shared:
             value = cloudpickle.dumps(value)
         with self._cache_lock:
-            self._cache_dict[key] = value
-            cache_size = len(self._cache_queue)
-            if cache_size < self.max_size:
-                self._cache_queue.append(key)
-            else:
+            if key in self._cache_dict:
+                # Key is already in the cache, only move it to the back of the queue
+                self._cache_queue.remove(key)
+            elif len(self._cache_queue) >= self.max_size:
                 key_to_evict = self._cache_queue.pop(0)
                 self._cache_dict.pop(key_to_evict)
-                self._cache_queue.append(key)
+            self._cache_dict[key] = value
+            self._cache_queue.append(key)
 
     def __contains__(self, key: Hashable) -> bool:
         """Check if a key is present in the cache."""
